@@ -116,6 +116,62 @@ pub(crate) fn c04_judge(rep: &mut Report, label: &str, bytes: Vec<u8>, expected:
     }
 }
 
+/// a well-formed message read as the second message of a stream, through the reader parse_parts() returned for the first
+pub(crate) fn c04_second_on_stream(rep: &mut Report, label: &str, bytes: &[u8], expected: &Model, replay: &[String]) {
+    // first message: version 2.0, Get-Jobs, id 7, one operation group with one attribute
+    let mut stream: Vec<u8> = vec![0x02, 0x00, 0x00, 0x0a, 0x00, 0x00, 0x00, 0x07, 0x01, 0x21, 0x00, 0x01, b'f', 0x00, 0x04, 0, 0, 0, 1, 0x03];
+    let first_len = stream.len();
+    stream.extend_from_slice(bytes);
+    let data = Arc::new(stream);
+    let judge = |rep: &mut Report, how: &str, got: Result<Model, String>| {
+        rep.eval();
+        rep.count("second_message_on_a_reused_reader", 1);
+        match got {
+            Ok(m) => {
+                if let Some(d) = mirror::diff(expected, &m) {
+                    rep.violation("C04:misread:second-on-stream", format!("{label} as the second message on a stream ({how}): RFC reading vs parser result: {d}; input={}", hex_short(&data[first_len..], 400)), replay.to_vec());
+                }
+            }
+            Err(e) => rep.violation("C04:rejected:second-on-stream", format!("{label} as the second message on a stream ({how}): {e}; input={}", hex_short(&data[first_len..], 400)), replay.to_vec()),
+        }
+    };
+    // blocking
+    let (src, _) = Scripted::new(data.clone(), Plan::full());
+    let got = catch(move || -> Result<Model, String> {
+        let (_h, _a, reader) = IppParser::new(IppReader::new(src)).parse_parts().map_err(|e| format!("first message rejected: {:?}", errk(&e)))?;
+        let mut resp = IppParser::new(reader).parse().map_err(|e| format!("second message rejected: {:?}", errk(&e)))?;
+        let mut m = mirror::from_ipp_head(resp.header(), resp.attributes());
+        let mut rest = vec![];
+        read_all_sync(resp.payload_mut(), &mut rest).map_err(|k| format!("payload: {k:?}"))?;
+        m.data = rest;
+        Ok(m)
+    });
+    judge(rep, "blocking", got.unwrap_or_else(|p| Err(format!("panic: {p}"))));
+    // async
+    let (src, sh) = Scripted::new(data.clone(), Plan::chunk(5));
+    let got = catch(|| {
+        src::run(
+            async move {
+                let (_h, _a, reader) = AsyncIppParser::new(AsyncIppReader::new(src)).parse_parts().await.map_err(|e| format!("first message rejected: {:?}", errk(&e)))?;
+                let mut resp = AsyncIppParser::new(reader).parse().await.map_err(|e| format!("second message rejected: {:?}", errk(&e)))?;
+                let mut m = mirror::from_ipp_head(resp.header(), resp.attributes());
+                let mut rest = vec![];
+                futures_util::io::AsyncReadExt::read_to_end(resp.payload_mut(), &mut rest).await.map_err(|e| format!("payload: {:?}", e.kind()))?;
+                m.data = rest;
+                Ok::<Model, String>(m)
+            },
+            &[sh.clone()],
+            MAX_IDLE_POLLS,
+        )
+    });
+    let got = match got {
+        Ok((Exec::Ready(r), _)) => r,
+        Ok((_, _)) => Err("async parse did not finish (deadlock / busy loop)".into()),
+        Err(p) => Err(format!("panic: {p}")),
+    };
+    judge(rep, "async", got);
+}
+
 pub(crate) fn c04_bad_tags(rep: &mut Report, label: &str, bytes: &[u8], rng: &mut Rng, replay: &[String]) {
     let hl = match ippref::head_len(bytes) {
         Some(h) => h,
@@ -194,6 +250,11 @@ pub fn run_c04(args: &Args, tier: &str, seed: u64) -> Report {
             if idx % 8 == 0 {
                 let mut r = Rng::fork(seed ^ 0xBAD7, idx);
                 c04_bad_tags(&mut rep, &label, &bytes, &mut r, &replay);
+            }
+            // every 6th case: the message is the SECOND one on a stream - the first (a fixed short message without document) is
+            // read with parse_parts(), and the reader it hands back is given to a new parser (blocking and async)
+            if idx % 6 == 1 {
+                c04_second_on_stream(&mut rep, &label, &bytes, &expected, &replay);
             }
             c04_judge(&mut rep, &label, bytes, &expected, &replay);
             idx += nthreads as u64;
@@ -329,6 +390,7 @@ pub fn run_c05(args: &Args, tier: &str, seed: u64) -> Report {
             ("bytes12", _) => 41,
             ("pairs", _) => 1,
             ("strings", _) => 1,
+            ("preambles", _) => 1,
             ("chains", "thorough") => 1,
             ("chains", _) => 3,
             ("mutations", "thorough") => 4,
@@ -382,6 +444,23 @@ pub fn run_c05(args: &Args, tier: &str, seed: u64) -> Report {
             }
             // always: whole, 1 byte at a time, two random compositions with not-ready patterns
             c05_compare(&mut rep, &label, &data, &reference, Plan::full(), "full", &replay);
+            // the header-and-attributes-only entry point: same outcome, and the same trailing bytes through the source that
+            // reader.into_inner() hands back (whole delivery and 3-byte chunks)
+            {
+                let pref = sync_parse_parts(&data, Plan::full());
+                for (plan, sched) in [(Plan::full(), "parts/full"), (Plan::chunk(3), "parts/uniform-3")] {
+                    rep.eval();
+                    rep.count("parse_parts_comparisons", 1);
+                    let a = async_parse_parts(&data, plan);
+                    let same = match (&a, &pref) {
+                        (Outcome::Panic(_), Outcome::Panic(_)) => true,
+                        _ => a == pref,
+                    };
+                    if !same {
+                        rep.violation(format!("C05:differ:parts:{}-vs-{}", pref.class(), a.class()), format!("{label} schedule {sched}: blocking parse_parts+into_inner {} vs async {}; input={}", pref.short(), a.short(), hex_short(&data, 500)), replay.clone());
+                    }
+                }
+            }
             c05_compare(&mut rep, &label, &data, &reference, Plan::chunk(1), "uniform-1", &replay);
             let mut r = Rng::fork(seed ^ 0xC05, hash64(&data));
             for t in 0..2u64 {
@@ -540,7 +619,15 @@ pub(crate) fn c06_run(rep: &mut Report, wf: &Wf, plan: &Plan, sched: &str, refer
                 let mut p = resp.into_payload();
                 read_all_sync(&mut p, &mut rest)
             } else {
-                read_all_sync(resp.payload_mut(), &mut rest)
+                // a read into an empty buffer returns 0 and must not disturb what follows (consumers that fill fixed blocks do this)
+                match resp.payload_mut().read(&mut []) {
+                    Ok(0) => read_all_sync(resp.payload_mut(), &mut rest),
+                    Ok(n) => {
+                        viol(rep, "blocking-parse-payload", format!("a zero-length read on the payload returned {n}"));
+                        Ok(())
+                    }
+                    Err(e) => Err(e.kind()),
+                }
             };
             if r.is_err() || rest != payload {
                 let p = first_diff(&rest, payload);
@@ -605,9 +692,11 @@ pub(crate) fn c06_run(rep: &mut Report, wf: &Wf, plan: &Plan, sched: &str, refer
                             let pos = sh2.pos();
                             let mut m = mirror::from_ipp_head(resp.header(), resp.attributes());
                             let mut rest = vec![];
+                            // (a zero-length read first, as in the blocking case)
+                            let z = futures_util::io::AsyncReadExt::read(resp.payload_mut(), &mut []).await;
                             let rr = futures_util::io::AsyncReadExt::read_to_end(resp.payload_mut(), &mut rest).await;
                             m.data = rest;
-                            Ok((pos, m, rr.is_ok(), head_len))
+                            Ok((pos, m, rr.is_ok() && matches!(z, Ok(0)), head_len))
                         }
                         Err(e) => Err(errk(&e)),
                     }
@@ -975,6 +1064,44 @@ pub fn run_c07(args: &Args, tier: &str, seed: u64) -> Report {
                         if o != Outcome::Err(ErrK::Io(kind)) {
                             rep.violation(format!("C07:fault-lost:blocking:{}", o.class()), format!("case {idx}: {mode} {kind:?} injected at offset {off}/{hl} gave {} (blocking); head={}", o.short(), hex(&head[..hl.min(400)])), replay.clone());
                         }
+                        // the same stream reaching the parser through an IppPayload (a message embedded in another one's document, or
+                        // the payload taken from a reader): every 5th (offset, kind) pair, both parsers
+                        if (off + ki) % 5 == 0 && !once {
+                            rep.eval();
+                            rep.count("faults_via_payload", 1);
+                            let (src, _) = Scripted::new(full.clone(), mk(Fallback::Full));
+                            let o = catch(move || match IppParser::new(IppReader::new(ipp::payload::IppPayload::new(src))).parse() {
+                                Ok(_) => Outcome::Hang("accepted".into()),
+                                Err(e) => Outcome::Err(errk(&e)),
+                            })
+                            .unwrap_or_else(Outcome::Panic);
+                            if o != Outcome::Err(ErrK::Io(kind)) {
+                                rep.violation(format!("C07:fault-lost:blocking-via-payload:{}", o.class()), format!("case {idx}: persistent {kind:?} injected at offset {off}/{hl} of a stream read through IppPayload gave {} (blocking); head={}", o.short(), hex(&head[..hl.min(400)])), replay.clone());
+                            }
+                            if kind != ErrorKind::WouldBlock {
+                                let (src, sh) = Scripted::new(full.clone(), mk(Fallback::Full));
+                                let r = catch(|| {
+                                    src::run(
+                                        async move {
+                                            match AsyncIppParser::new(AsyncIppReader::new(ipp::payload::IppPayload::new(src))).parse().await {
+                                                Ok(_) => Outcome::Hang("accepted".into()),
+                                                Err(e) => Outcome::Err(errk(&e)),
+                                            }
+                                        },
+                                        &[sh.clone()],
+                                        MAX_IDLE_POLLS,
+                                    )
+                                });
+                                let o = match r {
+                                    Ok((Exec::Ready(o), _)) => o,
+                                    Ok(_) => Outcome::Hang("no progress".into()),
+                                    Err(p) => Outcome::Panic(p),
+                                };
+                                if o != Outcome::Err(ErrK::Io(kind)) {
+                                    rep.violation(format!("C07:fault-lost:async-via-payload:{}", o.class()), format!("case {idx}: persistent {kind:?} injected at offset {off}/{hl} of a stream read through IppPayload gave {} (async); head={}", o.short(), hex(&head[..hl.min(400)])), replay.clone());
+                                }
+                            }
+                        }
                         if kind == ErrorKind::WouldBlock {
                             continue;
                         }
@@ -992,7 +1119,43 @@ pub fn run_c07(args: &Args, tier: &str, seed: u64) -> Report {
         rep
     });
     let mut rep = merge_all("C07", tier, seed, parts);
-    rep.rule = "Per well-formed message (G1/G2 trees, short messages, builder requests; header+attributes 9 B..2 KiB): EVERY cut point 0 <= k < |header+attributes| through the blocking parser (whole and, every 3rd, 1-byte reads) and the async parser (whole / fragmented with not-ready steps) must give Err; EVERY (offset, kind) single fault with kinds ConnectionReset, ConnectionAborted, TimedOut, BrokenPipe, UnexpectedEof, PermissionDenied, Other (+ WouldBlock for the blocking reader), delivered under full or small-chunk reads, must give Err(IoError) of exactly that kind; Ok or a panic is a violation. evaluations = parser runs; distinct_nontrivial = distinct messages enumerated exhaustively.".into();
+    // messages with a name / value at the top of the 16-bit length range: cuts and faults at the positions around that element
+    // (sampled, not exhaustive: these messages are 64 KiB long)
+    if only.is_none() {
+        for (nlen, vlen) in [(65533usize, 4usize), (65534, 4), (65535, 4), (1, 65534), (1, 65535), (32767, 32767), (32768, 32768)] {
+            let mut msg = gen::HDR.to_vec();
+            msg.push(0x01);
+            msg.push(0x30);
+            msg.extend_from_slice(&(nlen as u16).to_be_bytes());
+            msg.extend(std::iter::repeat(b'n').take(nlen));
+            msg.extend_from_slice(&(vlen as u16).to_be_bytes());
+            msg.extend(std::iter::repeat(b'v').take(vlen));
+            msg.extend_from_slice(&[0x21, 0x00, 0x01, b'z', 0x00, 0x04, 0, 0, 0, 1, 0x03]);
+            let hl = msg.len();
+            let full = Arc::new(msg);
+            let name_end = 8 + 1 + 1 + 2 + nlen;
+            let mut offs = vec![9, 10, 11, 12, 13, name_end - 1, name_end, name_end + 1, name_end + 2, name_end + 2 + vlen / 2, name_end + 2 + vlen, hl - 12, hl - 2, hl - 1];
+            offs.retain(|o| *o < hl);
+            offs.dedup();
+            for off in offs {
+                for use_async in [false, true] {
+                    rep.eval();
+                    rep.count("long_element_cuts_and_faults", 2);
+                    let cut = Arc::new(full[..off].to_vec());
+                    let o = if use_async { async_parse(&cut, Plan::chunk(4096)).0 } else { sync_parse(&cut, Plan::full()).0 };
+                    if !matches!(o, Outcome::Err(_)) {
+                        rep.violation(format!("C07:cut-accepted:long-element:{}", o.class()), format!("message with a {nlen}-octet name and a {vlen}-octet value cut at {off}/{hl} gave {} ({})", o.short(), if use_async { "async" } else { "blocking" }), vec!["c07".into()]);
+                    }
+                    let plan = Plan { steps: vec![], fallback: Fallback::Full, fail_at: Some((off, ErrorKind::ConnectionReset)), steps_start: 0, fail_once: false, thread_wake: false };
+                    let o = if use_async { async_parse(&full, plan).0 } else { sync_parse(&full, plan).0 };
+                    if o != Outcome::Err(ErrK::Io(ErrorKind::ConnectionReset)) {
+                        rep.violation(format!("C07:fault-lost:long-element:{}", o.class()), format!("message with a {nlen}-octet name and a {vlen}-octet value, ConnectionReset at {off}/{hl} gave {} ({})", o.short(), if use_async { "async" } else { "blocking" }), vec!["c07".into()]);
+                    }
+                }
+            }
+        }
+    }
+    rep.rule = "Per well-formed message (G1/G2 trees, short messages, builder requests; header+attributes 9 B..2 KiB): EVERY cut point 0 <= k < |header+attributes| through the blocking parser (whole and, every 3rd, 1-byte reads) and the async parser (whole / fragmented with not-ready steps) must give Err; EVERY (offset, kind) single fault with kinds ConnectionReset, ConnectionAborted, TimedOut, BrokenPipe, UnexpectedEof, PermissionDenied, Other (+ WouldBlock for the blocking reader), delivered under full or small-chunk reads, must give Err(IoError) of exactly that kind; Ok or a panic is a violation; every 5th (offset, kind) pair additionally with the stream reaching the parsers through an IppPayload; plus sampled cuts and faults around names / values of 32767..65535 octets. evaluations = parser runs; distinct_nontrivial = distinct messages enumerated exhaustively.".into();
     rep.exhaustive = Some(false);
     rep.extra.insert("per_message_enumeration".into(), J::Str("exhaustive over cut points and (offset, kind) faults for every message listed in counters.messages".into()));
     if only.is_none() {
